@@ -6,20 +6,51 @@ from vlib.core import Infra
 OK3 = [([], "ok"), ([], "ok"), ([], "ok")]
 
 
-def random_program(rng, ntests):
+def word(rng, letters, lo, hi):
+    # the first letter is the more frequent one: runs and repeated prefixes are common
+    return "".join(letters[0] if rng.random() < 0.62 else letters[1] for _ in range(rng.randrange(lo, hi + 1)))
+
+
+def piece(rng, names, letters):
+    """a filter text for a binary program: mostly a piece that does occur in one of the names, at a random offset"""
+    if names and rng.random() < 0.7:
+        s = rng.choice(names)
+        n = rng.randrange(2, 5)
+        i = rng.randrange(0, max(1, len(s) - n + 1))
+        return s[i:i + n]
+    return word(rng, letters, 2, 4)
+
+
+def random_program(rng, ntests, binary=None):
     alpha = ["A", "B", "AB", "BA", "ABA", "C", "x", "xy", "y", "yx", "Test", "Tes"]
     tests = []
+    # "binary" programs: names and filter texts are random words over two letters, so that a filter text occurs in a name at every
+    # possible offset, also right behind (or overlapping) a partial occurrence of itself ("AAB" in "AAAB", "ABAC" in "ABABAC")
+    binary = rng.random() < 0.45 if binary is None else binary
+    gwords = [word(rng, "AB", 2, 4) for _ in range(4)]
+    nwords = [word(rng, "xy", 2, 4) for _ in range(4)]
+    def near_miss(words, letters):
+        # the classic hard case of a substring search: a partial occurrence of the text directly followed by (or overlapping) a real one
+        if rng.random() < 0.5:
+            return word(rng, letters, 1, 7)
+        q = rng.choice(words)
+        return word(rng, letters, 0, 2) + q[:rng.randrange(1, len(q))] + q + word(rng, letters, 0, 2)
     for i in range(ntests):
-        tests.append({"g": rng.choice(alpha[:6]) + rng.choice(["", "", "1"]), "n": rng.choice(alpha[6:]) + str(i if rng.random() < 0.7 else ""),
+        if binary:
+            tests.append({"g": near_miss(gwords, "AB"), "n": near_miss(nwords, "xy") + str(i), "ign": rng.random() < 0.2, "ph": OK3})
+        else:
+            tests.append({"g": rng.choice(alpha[:6]) + rng.choice(["", "", "1"]), "n": rng.choice(alpha[6:]) + str(i if rng.random() < 0.7 else ""),
                       "ign": rng.random() < 0.25, "ph": OK3})
     # keep tests of one group together most of the time (the default registration order), sometimes not
     if rng.random() < 0.7:
         tests.sort(key=lambda t: t["g"])
     def filt(pool):
         return [(rng.choice(pool), rng.random() < 0.4, rng.random() < 0.3) for _ in range(rng.choice([0, 0, 1, 1, 2, 3]))]
+    gpool = gwords if binary else ["A", "B", "AB", "A1", "C", ""]
+    npool = nwords if binary else ["x", "y", "xy", "Test", "1", "x1"]
     return {"repeat": rng.choice([1, 2, 3]), "reverse": rng.random() < 0.4, "shuffle": rng.random() < 0.6, "runIgnored": rng.random() < 0.4,
-            "gf": filt(["A", "B", "AB", "A1", "C", ""]), "nf": filt(["x", "y", "xy", "Test", "1", "x1"]), "plugins": [], "draws": None,
-            "seed": rng.randrange(1, 100000), "tests": tests}
+            "gf": filt(gpool), "nf": filt(npool), "plugins": [], "draws": None,
+            "seed": rng.randrange(1, 100000), "tests": tests, "binary": binary, "gwords": gwords, "nwords": nwords}
 
 
 def sig(p):
@@ -31,7 +62,11 @@ def sessions(rng, base, k):
     different filters / order options each time: whatever a shell remembers from one run must not leak into the next"""
     out = [base]
     for _ in range(k - 1):
-        v = random_program(rng, 0)
+        v = random_program(rng, 0, base.get("binary"))
+        if base.get("binary"):
+            v["gf"] = [(rng.choice(base["gwords"]) if rng.random() < 0.6 else piece(rng, [t["g"] for t in base["tests"]], "AB"), f[1], f[2]) for f in v["gf"]]
+            v["nf"] = [(rng.choice(base["nwords"]) if rng.random() < 0.6 else piece(rng, [t["n"].rstrip("0123456789") for t in base["tests"]], "xy"), f[1], f[2])
+                       for f in v["nf"]]
         v["tests"] = base["tests"]; v["runIgnored"] = base["runIgnored"]
         out.append(v)
     if rng.random() < 0.6:
